@@ -18,7 +18,7 @@ from vlib import core, build, pairlib as pl
 
 REL, ABS = 2e-5, 1e-9
 KINDS = [("general", "general"), ("on", "general"), ("general", "on"), ("on", "on"), ("axis", "plane"), ("plane", "axis"), ("axis", "axis"),
-         ("near", "general"), ("general", "near"), ("near", "on")]
+         ("near", "general"), ("general", "near"), ("near", "on"), ("zaxis", "zaxis"), ("on", "zaxis")]
 # counterfactuals tried in this order; the first that brings the block within tolerance names the finding(s)
 ATTRIBUTION = [
     ("tailcut-left-end", "no-tail-cut"),
@@ -96,7 +96,7 @@ def explore(ctx, cases=None):
     quick = ctx.tier == "quick"
     b = build.build("plain")
     tr_ok, classes = pl.regen(ctx, b)
-    proofs_ok = ctx.lean_props("C01", extra_modules=["Ecpint.Props.C01a", "Ecpint.Props.C01b"]) if tr_ok else False
+    proofs_ok = ctx.lean_props("C01", extra_modules=["Ecpint.Props.C01a", "Ecpint.Props.C01b", "Ecpint.Props.C01c"]) if tr_ok else False
     drv = pl.pair_driver(b)
     maxl = 5
     try:
@@ -142,7 +142,10 @@ def explore(ctx, cases=None):
     out = []
     if fails:
         sws = tuple(dict.fromkeys(sw for _, sw in ATTRIBUTION))
-        pl.run_model([f[0] for f in fails], sws)
+        # counterfactual runs only where they can be used: not when model and code disagree, and on at most 40 blocks
+        # (further deviating blocks stay unattributed, i.e. count as new)
+        if proofs_ok and not corr_bad:
+            pl.run_model([f[0] for f in fails[:40]], sws)
         for r, o, err, tol in fails:
             fid, table = attribute(r, o["v"], tol)
             if not proofs_ok or corr_bad:
